@@ -283,6 +283,27 @@ def has_gap(routine_ops) -> bool:
     return offs != list(range(1, len(offs) + 1))
 
 
+def _dm_normalise(nodes: dict) -> dict:
+    """The decompile command is specified to print `flag_SetDungeonMode(x, i)` and `Case(i)` (i in 0..3) with the dungeon-mode
+    constants of the settings it is given, so in these two ops the constant and the integer denote the same parameter (the same
+    interpretation as C02's `dmc_normalise`, here with the names of SETTINGS_DOC)."""
+    from spec.machine import Node
+
+    dm = SETTINGS_DOC["settings"]["dungeon_mode_constants"]
+    values = {dm["closed"]: 0, dm["open"]: 1, dm["request"]: 2, dm["open_request"]: 3}
+    out = {}
+    for nid, n in nodes.items():
+        lab = n.label
+        if lab and lab[0] in ("flag_SetDungeonMode", "Case"):
+            idx = 1 if lab[0] == "flag_SetDungeonMode" else 0
+            ps = list(lab[1])
+            if idx < len(ps) and ps[idx][0] == "const" and ps[idx][1] in values:
+                ps[idx] = ("int", values[ps[idx][1]])
+                n = Node(n.kind, (lab[0], tuple(ps)), n.succ)
+        out[nid] = n
+    return out
+
+
 def equiv_routines(a_ops, b_ops) -> str | None:
     """None if routine by routine equivalent, else a description. 'skip:<why>' if outside the machine model."""
     from spec.machine import MalformedRoutines, OpFreeCycle, describe_path, equiv, machine
@@ -297,6 +318,7 @@ def equiv_routines(a_ops, b_ops) -> str | None:
         n2, e2 = machine(b_ops)
     except MalformedRoutines as e:
         return f"recompiled output malformed: {e}"
+    n1, n2 = _dm_normalise(n1), _dm_normalise(n2)
     for i, (x, y) in enumerate(zip(e1, e2)):
         try:
             p = equiv(n1, x, n2, y)
